@@ -254,7 +254,7 @@ Print Assumptions gen_C17_DefaultNewNick.
    ReNick are the model tracker's, the result is the model's final state (and lines) when the
    model does not panic and Panic exactly when it does (Proofs/GenEqHandlers.v). *)
 From Verif Require Import GoFuncs GenEqHandlers.
-Definition gen_tracker_agrees (trk : go_state_Tracker tracker) : Prop :=
+Definition gen_tracker_agrees (trk : @go_state_Tracker unit unit tracker) : Prop :=
   (forall t, go_state_Tracker_Me trk t = (t, onick (tk_Me t)))
   /\ (forall t n i h nm, go_state_Tracker_NickInfo trk t n i h nm
         = (fst (tk_NickInfo t n i h nm), onick (snd (tk_NickInfo t n i h nm))))
